@@ -43,7 +43,7 @@ def one_trace(tid, n, game, mode, family):
         scale = 1
         while any(float(x) * scale != round(float(x) * scale) for x in orig):
             scale *= 2
-            if scale > 1024:
+            if scale > 2 ** 44:
                 raise D.DriverError("not dyadic")
         t["scale"] = scale
         t["v"] = D.exact_arr(orig, scale)
@@ -135,6 +135,8 @@ def main():
                         m[i, k] = rng.randint(0, 3)
                 traces.append(one_trace(tid, n, GraphCooperativeGame(m), "exact", "int_graph"))
                 continue
+            if j % 9 == 8:
+                v = [x * 2.0 ** -30 for x in v]              # very small magnitude
             traces.append(one_trace(tid, n, table_of(n, [float(x) for x in v]), "exact", "exact"))
         for fam in fams:
             for s in range(a.seeds):
